@@ -241,6 +241,47 @@ def run(chk):
 
     # ---- insert_registers ----------------------------------------------
     fr_ = repo.func(FILE, "insert_registers")
+    def _registers_only_splice(key, c, r, snap, d_port="d", q_port="q", extra_inputs=("clk",), original=None):
+        """the obligation on a returned circuit; `original`: the circuit whose function must be kept (the argument by default)"""
+        orig = original if original is not None else c
+        if r[0] != "return" or not isinstance(r[1], RefCircuit):
+            chk.ob("C05.S.insert_registers", key, False, file=FILE, func="insert_registers", line=fr_.node.lineno, fact={"result": str(r)[:200]})
+            return
+        cr = r[1]
+        prob = None
+        if c._snapshot() != snap:
+            prob = {"problem": "argument modified"}
+        # replace every flop by a wire d -> q
+        w = cr.copy()
+        n_ff = 0
+        for inst, bb in list(w.blackboxes.items()):
+            n_ff += 1
+            d, q = f"{inst}.{d_port}", f"{inst}.{q_port}"
+            if d not in w or q not in w:
+                prob = prob or {"problem": "flop pins missing", "instance": inst}
+                continue
+            drv = sorted(w.fanin(d))
+            lds = sorted(w.fanout(q))
+            if len(drv) != 1 or len(lds) != 1:
+                prob = prob or {"problem": "flop d/q not spliced into a wire", "instance": inst, "d_drivers": drv, "q_loads": lds}
+                continue
+            for p in list(bb.io()):
+                if f"{inst}.{p}" in w:
+                    w.graph.remove_node(f"{inst}.{p}")
+            w.graph.add_edge(drv[0], lds[0])
+        w.blackboxes.clear()
+        if prob is None:
+            if not (orig.inputs() <= w.inputs() <= orig.inputs() | set(extra_inputs)) or w.outputs() != orig.outputs():
+                prob = {"problem": "inputs/outputs changed", "inputs": sorted(w.inputs()), "outputs": sorted(w.outputs())}
+        if prob is None:
+            und = sorted(n_ for n_ in w.nodes() if w.type(n_) not in ("input", "0", "1", "x") and not w.fanin(n_))
+            if und:
+                prob = {"problem": "a wire was cut and left without a driver", "undriven": und[:6]}
+        if prob is None:
+            prob = same_function(orig, w, sorted(orig.outputs()))
+        chk.ob("C05.S.insert_registers", key, prob is None, file=FILE, func="insert_registers", line=fr_.node.lineno, fact=prob or {"flops": n_ff},
+               expect="flops only splice existing wires: replacing each by a d->q wire gives an equivalent circuit")
+
     for kname, c in list(deep_circuits()) + list(two_level_circuits(limit=12)):
         for stages in (1, 2):
             snap = c._snapshot()
@@ -250,39 +291,40 @@ def run(chk):
             if r[0] == "raise" and r[1] == "ValueError" and "range()" in (r[2] or ""):
                 chk.note(f"insert_registers({kname}, {stages}) raises ValueError (depth increment rounds to 0 on a shallow circuit); nothing is returned, so no obligation")
                 continue
-            if r[0] != "return" or not isinstance(r[1], RefCircuit):
-                chk.ob("C05.S.insert_registers", key, False, file=FILE, func="insert_registers", line=fr_.node.lineno, fact={"result": str(r)[:200]})
+            _registers_only_splice(key, c, r, snap)
+    # other flop definitions and port names; a request the function refuses (ValueError: a flop without the pin the default
+    # `other_flop_io` names, an instance name already taken on a second application) carries no obligation - a circuit that is
+    # returned does
+    from ..refmodel import RefBlackBox as _RBB
+
+    flops = [
+        ("own flop with clk and rst", dict(ff=_RBB("dffr", ["data", "clk", "rst"], ["out"]), d_port="data", q_port="out", other_flop_io={"clk": "clk", "rst": "rst"}), ("data", "out", ("clk", "rst"))),
+        ("own flop without other pins", dict(ff=_RBB("lat", ["d"], ["q"]), other_flop_io={}), ("d", "q", ())),
+        ("own flop without the clk pin, default other_flop_io", dict(ff=_RBB("lat", ["d"], ["q"])), ("d", "q", ("clk",))),
+        # `other_flop_io` maps circuit nodes to flop ports: an existing input as the clock, a new node named differently from the port
+        ("clock taken from an existing input", dict(other_flop_io={"a": "clk"}), ("d", "q", ())),
+        ("clock node named differently from the port", dict(other_flop_io={"sysclk": "clk"}), ("d", "q", ("sysclk",))),
+    ]
+    for kname, c in list(deep_circuits())[:3]:
+        for fname_, kw, (dp, qp, extra) in flops:
+            snap = c._snapshot()
+            if "a" in kw.get("other_flop_io", {}) and "a" not in c.inputs():
                 continue
-            cr = r[1]
-            prob = None
-            if c._snapshot() != snap:
-                prob = {"problem": "argument modified"}
-            # replace every flop by a wire d -> q
-            w = cr.copy()
-            n_ff = 0
-            for inst, bb in list(w.blackboxes.items()):
-                n_ff += 1
-                d, q = f"{inst}.d", f"{inst}.q"
-                if d not in w or q not in w:
-                    prob = prob or {"problem": "flop pins missing", "instance": inst}
-                    continue
-                drv = sorted(w.fanin(d))
-                lds = sorted(w.fanout(q))
-                if len(drv) != 1 or len(lds) != 1:
-                    prob = prob or {"problem": "flop d/q not spliced into a wire", "instance": inst, "d_drivers": drv, "q_loads": lds}
-                    continue
-                for p in list(bb.io()):
-                    if f"{inst}.{p}" in w:
-                        w.graph.remove_node(f"{inst}.{p}")
-                w.graph.add_edge(drv[0], lds[0])
-            w.blackboxes.clear()
-            if prob is None:
-                if not (c.inputs() <= w.inputs() <= c.inputs() | {"clk"}) or w.outputs() != c.outputs():
-                    prob = {"problem": "inputs/outputs changed", "inputs": sorted(w.inputs()), "outputs": sorted(w.outputs())}
-            if prob is None:
-                prob = same_function(c, w, sorted(c.outputs()))
-            chk.ob("C05.S.insert_registers", key, prob is None, file=FILE, func="insert_registers", line=fr_.node.lineno, fact=prob or {"flops": n_ff},
-                   expect="flops only splice existing wires: replacing each by a d->q wire gives an equivalent circuit")
+            r = P.call(FILE, "insert_registers", c, 1, **kw)
+            n_eval += 1
+            if r[0] == "raise" and r[1] == "ValueError" and "without the clk pin" in fname_:
+                continue  # the only request among these that the flop cannot serve
+            _registers_only_splice(f"insert_registers::{kname}::{fname_}", c, r, snap, dp, qp, extra)
+        # applied to its own result: the first boundary nodes already own a flop
+        snap = c._snapshot()
+        r1 = P.call(FILE, "insert_registers", c, 1)
+        if r1[0] == "return" and isinstance(r1[1], RefCircuit):
+            mid = r1[1]
+            snap_mid = mid._snapshot()
+            r2 = P.call(FILE, "insert_registers", mid, 1)
+            n_eval += 1
+            if not (r2[0] == "raise" and r2[1] in ("ValueError", "NotImplementedError")):
+                _registers_only_splice(f"insert_registers::{kname}::applied to its own result", mid, r2, snap_mid, original=c)
 
     # ---- acyclic_unroll on acyclic circuits ----------------------------
     fa = repo.func(FILE, "acyclic_unroll")
